@@ -168,6 +168,52 @@ theorem custom_call_prints_from_source (custom : List ((VType × Bytes) × Nat))
   rw [evalProg_nil]
   simp [resToOut]
 
+/-- **the arguments reach a registered function, from the source bytes**: `{{ k.fn(d) }}` with a decimal
+    number and `{{ k.fn("text") }}` with a string literal call the registered function with the receiver
+    and that one argument — the integer with the decimal value of `d`, the *escaped* text of the literal —
+    and render what it returns -/
+theorem custom_call_with_number_prints_from_source (custom : List ((VType × Bytes) × Nat)) (data : List (Bytes × GoVal)) (env : Env)
+    (hd : KeysDistinct data) (h : envFromMap data = .ok env) (k : Bytes) (g : GoVal) (hm : (k, g) ∈ data) (hk : isName k)
+    (fn : Bytes) (hfn : isName fn) (d : Bytes) (hdg : isDigits d) (hb : digitsToNat d < 2 ^ 63)
+    (g1 g2 g3 g4 : Bytes) (hg1 : allWs g1) (hg2 : allWs g2) (hg3 : allWs g3) (hg4 : allWs g4)
+    (rv : Val) (hrv : nativeToObject g = some rv) (htab : hasBuiltinTable rv.type = true)
+    (hnb : callBuiltin rv fn [.int (Int64.ofNat (digitsToNat d))] = none) (fid : Nat)
+    (hreg : lookupCustom { custom := custom } rv.type fn = some fid) :
+    evaluateStringPure custom (callNumSrc g1 k fn g3 d g4 g2) data = .ok (callCustom fid rv [.int (Int64.ofNat (digitsToNat d))]).toStr := by
+  obtain ⟨v0, hv0, hget⟩ := C12.data_is_visible data env hd h k g hm
+  have hv0' : v0 = rv := by rw [hrv] at hv0; cases hv0; rfl
+  subst hv0'
+  obtain ⟨prog, t2, t4, t6, t7, hp, hs⟩ := parse_callNum_source g1 k fn g3 d g4 g2 hg1 hg2 hg3 hg4 hk hfn hdg (by omega)
+  unfold evaluateStringPure envOrFail
+  rw [hp]
+  simp only [h, hs]
+  rw [show evalFuel = (evalFuel - 6) + 1 + 1 + 1 + 1 + 1 + 1 from by decide, evalProg_cons, evalStmt_succ]
+  simp only [stmtBody, calleesAt_expr]
+  simp only [evalExpr, hget, htab, evalExprs, hnb, hreg, Bool.not_true, Bool.false_eq_true, if_false, Res.bind_ok]
+  rw [evalProg_nil]
+  simp [resToOut]
+
+theorem custom_call_with_string_prints_from_source (custom : List ((VType × Bytes) × Nat)) (data : List (Bytes × GoVal)) (env : Env)
+    (hd : KeysDistinct data) (h : envFromMap data = .ok env) (k : Bytes) (g : GoVal) (hm : (k, g) ∈ data) (hk : isName k)
+    (fn : Bytes) (hfn : isName fn) (q : Byte) (hq : q = 34 ∨ q = 39) (c : Bytes) (hc : PlainStr q c)
+    (g1 g2 g3 g4 : Bytes) (hg1 : allWs g1) (hg2 : allWs g2) (hg3 : allWs g3) (hg4 : allWs g4)
+    (rv : Val) (hrv : nativeToObject g = some rv) (htab : hasBuiltinTable rv.type = true)
+    (hnb : callBuiltin rv fn [.str (literalValue c)] = none) (fid : Nat)
+    (hreg : lookupCustom { custom := custom } rv.type fn = some fid) :
+    evaluateStringPure custom (callStrSrc g1 k fn g3 q c g4 g2) data = .ok (callCustom fid rv [.str (literalValue c)]).toStr := by
+  obtain ⟨v0, hv0, hget⟩ := C12.data_is_visible data env hd h k g hm
+  have hv0' : v0 = rv := by rw [hrv] at hv0; cases hv0; rfl
+  subst hv0'
+  obtain ⟨prog, t2, t4, t6, t7, hp, hs⟩ := parse_callStr_source g1 k fn g3 q c g4 g2 hg1 hg2 hg3 hg4 hk hfn hq hc
+  unfold evaluateStringPure envOrFail
+  rw [hp]
+  simp only [h, hs]
+  rw [show evalFuel = (evalFuel - 6) + 1 + 1 + 1 + 1 + 1 + 1 from by decide, evalProg_cons, evalStmt_succ]
+  simp only [stmtBody, calleesAt_expr]
+  simp only [evalExpr, hget, htab, evalExprs, hnb, hreg, Bool.not_true, Bool.false_eq_true, if_false, Res.bind_ok]
+  rw [evalProg_nil]
+  simp [resToOut]
+
 /-- **a built-in of the same name wins, from the source bytes**: whatever is registered — under the
     same name, for the same type, before or after — `{{ k.fn() }}` renders the built-in's result
     (`C11.builtin_call_prints_from_source` holds for every registry) -/
